@@ -63,6 +63,20 @@ def rt_cases(seed, pool, count):
             parts.append([text, spec])
             prev = c03.spec_key(spec)
         cases.append(parts)
+    # directed: two runs with the same attributes and colours (hence the same SGR parameters) but different links, and a
+    # linked run followed by the same style without a link
+    k = 0
+    for spec in pool:
+        if spec is None or all(v is not True for v in spec["attrs"]) and spec["fg"] is None and spec["bg"] is None:
+            continue
+        a = dict(spec, link="http://one.example/a")
+        b = dict(spec, link="http://two.example/b")
+        c = dict(spec, link=None)
+        cases.append([["x", a], ["y", b], ["z", c]])
+        cases.append([["p", c], [" ", None], ["q", a], ["r", c]])
+        k += 1
+        if k >= 12:
+            break
     return cases
 
 
@@ -211,6 +225,9 @@ SGR_LINES = (
     "\x1b[0mafter",
     "\x1b]8;;http://x\x1b\\link\x1b]8;;\x1b\\ z",
     "\x1b]8;id=7;http://h/m;lat=5;lon=4/v?i=1;2\x1b\\semi\x1b]8;;\x1b\\ z",   # the URI itself contains ';' (only the first ends the params)
+    # the same SGR parameter string twice in one line, after different earlier states (what it means depends on the state)
+    "\x1b[1mb\x1b[3mbi\x1b[0m \x1b[3mi\x1b[0m",
+    "\x1b]8;;http://a\x1b\\\x1b[4mA\x1b[0m\x1b]8;;\x1b\\ \x1b[4mU\x1b[0m",
     "a\x1b[mb",
     "\x1b[4;21;53;9mu\x1b[24mv\x1b[0m",
     "\x1b[97;100mB\x1b[39mC\x1b[49mD",
